@@ -88,7 +88,7 @@ std::vector<std::uint8_t> prologue(std::uint16_t qtype, std::uint16_t an, std::u
   put16(m, ns);
   put16(m, ar);
   const char q[] = "\4host\7example";
-  m.insert(m.end(), q, q + 13); // includes the root octet
+  m.insert(m.end(), q, q + 14); // 13 octets of labels + the root octet (the string's NUL)
   put16(m, qtype);
   put16(m, 1);
   return m;
